@@ -128,7 +128,7 @@ def subject_tie(res):
     bad = [l for l in out.splitlines() if l.startswith("TIE-BAD")]
     res.add_suite("theorem-subjects", n, ok, [dict(case="class Node(Schema): v: int; link: List['Node'] / Dict[str,'Node'] / Optional['Node'] / Union['Node', int, None] / Tuple['Node', ...], max_depth=1/2/5",
                                                    impl="reflected declaration == the declaration the theorem quantifies over")],
-                  "the real classes of the three proved families reflect to the theorems' declarations (by conversion in Coq)",
+                  "the real classes of the proved families reflect to the theorems' declarations (by conversion in Coq)",
                   dict(mismatches=len(bad)))
     if rc != 0 or bad or ok != n:
         res.broken.append(dict(kind="correspondence", name="theorem-subjects",
